@@ -204,6 +204,18 @@ def install_internal_fault(ctx: W.RunContext) -> None:
             return orig(operation=operation, test_func=test_func, config=config)
 
         builder.create_test = create_test
+    elif stage == "setup":
+        # after the scenario was announced, before the test function runs (unit phases): the per-operation set-up step
+        import schemathesis.engine.phases.unit._executor as unit_executor
+
+        orig_setup = unit_executor.setup_hypothesis_database_key
+
+        def setup_hypothesis_database_key(test, operation):  # noqa: ANN001
+            if match(operation.label):
+                fire(operation.label)
+            return orig_setup(test, operation)
+
+        unit_executor.setup_hypothesis_database_key = setup_hypothesis_database_key
     elif stage == "generation":
 
         @schemathesis.hook("map_case")
